@@ -19,3 +19,41 @@ claim('C16', 'table agreement: rustc-resolved enum discriminants / match-arm tab
       'Trusts rustc\'s AdtDef::discriminants and path resolution, and the frozen tables in ref/ (dumped from the installed interpreters; re-dumped and compared in the thorough tier). '
       'The disassembly *display* code (read_instr_3xx) is not judged.',
       'DESIGN.md §3 C16')
+
+claim('C06', 'table agreement: in-order evaluation of resolved match arms of Context::cheap_supertype_of on the numeric tower, Obj and Never',
+      'Decides the tower / top / bottom clauses of the property exhaustively (36 ordered pairs of numeric classes, Obj and Never against every built-in unit type, '
+      'the reflexive prefix, the cheap_subtype_of flip). Structural: a missing pair falls into the final (Absolutely,false) arm, so the rows are necessary and sufficient for the tower.',
+      'Does not decide reflexivity/transitivity over unions, intersections, refinements or containers. Guards other than Type::is_mono_value_class on an arm that can match a tower pair are ANCHOR-LOST.',
+      'DESIGN.md §3 C06')
+claim('C11', 'table agreement: precedence/category/associativity tables, reduction-loop comparator, lexer `-` arm',
+      'Decides the documented precedence order (ordering constraints, not numbers), left associativity of all binary operators, the category table, the `stacked >= incoming` '
+      'comparator of both reduction loops and the prefix-minus rule of the lexer, exhaustively over the listed operators.',
+      'The shape of the parse-stack handling beyond the comparator is not decided.',
+      'DESIGN.md §3 C11')
+claim('C04', 'sibling cross-check of the folding functions + integer operation audit (typed HIR)',
+      'Decides three structural necessary conditions of "compile-time evaluation agrees with run time and never crashes": every numeric arm of ValueObj::try_<op> applies <op>; '
+      'Context::eval_bin dispatches OpKind::X to try_x; no trapping or truncating integer operation in those arms (each instance reported, the 51 present today are known findings).',
+      'Float rounding and non-arithmetic constant expressions are not decided. Operand types come from rustc typeck.',
+      'DESIGN.md §3 C04')
+claim('C21', 'coupled-state rule over every ModuleGraph method (who writes `graph` must write `index`)',
+      'Decides the representation invariant index[path] == position(path): every mutation of the node vector or of a Node::id is accompanied, on the same path, by an index update.',
+      'Query answers, cycle refusal and topological order over operation histories are not decided.',
+      'DESIGN.md §3 C21')
+claim('C31', 'structural rule on the ParentDir arm of cheap_canonicalize_path',
+      'Decides the clause "never discards leading parent-directory components" as a necessary condition: the ParentDir arm must be able to emit the component.',
+      'Idempotence is not decided; an unrecognised recording idiom is ANCHOR-LOST, not a violation.',
+      'DESIGN.md §3 C31')
+claim('C22', 'visitor completeness (type graph of hir x origin-to-visit dataflow in SideEffectChecker::check_expr)',
+      'Decides that the effect checker visits every sub-expression position in which an effect can hide (every Expr-bearing field path of every hir::Expr variant), '
+      'with reasoned, guarded exceptions for positions the front end cannot fill.',
+      'Whether a visited call is classified as effectful is decided only for the callee test of the Call arm. Exceptions are frozen in sa/props/c22.py with guards evaluated on every run.',
+      'DESIGN.md §3 C22')
+claim('C23', 'visitor completeness over OwnershipChecker::check_expr',
+      'Decides that the ownership checker visits every use position (receiver, positional, variadic and keyword arguments, collection elements, bodies).',
+      'Which positions move a value, and scoping, are not decided.',
+      'DESIGN.md §3 C23')
+claim('C12', 'dominance of erasure by purity+no-referrer tests; visitor completeness and callee classification of the purity test',
+      'Decides the clause "dropping unused definitions never removes a side effect" structurally: every erasure site is guarded by referrers.is_empty() && is_pure(expr), '
+      'opt level 0 bypasses the optimiser, and SideEffectChecker::is_impure is conservative on every hir::Expr variant and classifies calls by callee.',
+      'Equality of output across optimisation levels for whole programs is a run-time fact and is not decided.',
+      'DESIGN.md §3 C12')
